@@ -53,7 +53,12 @@ def generate(tier, seed):
 
     def work(gi, kinds, cfg, out):
         try:
-            results[gi] = vlib.run_tlc("WireGen", cfg, workers=2, scn_out=out, timeout=3000, heap="6g")
+            res = vlib.run_tlc("WireGen", cfg, workers=2, scn_out=out, timeout=3000, heap="4g")
+            if not res.ok:
+                # seen once under heavy machine load (several JVMs starting at once): retry before giving up
+                vlib.log("TLC failed on %s, retrying once:\n%s" % (kinds, res.output_tail[-1500:]))
+                res = vlib.run_tlc("WireGen", cfg, workers=2, scn_out=out, timeout=3000, heap="4g")
+            results[gi] = res
         except Exception as e:  # noqa
             errors.append(e)
 
@@ -136,8 +141,27 @@ def corrupt_for_demo(scen):
     vlib.log("binding demo: corrupted the expected bytes of vector %d (%s)" % (n, doc[0]))
 
 
-def crash_sig(sc, text):
-    return "wire/%s/crash/%s" % (sc[0], sc[1])
+def absorb(v, out, scen):
+    """vlib.absorb_replay re-reads the scenario file once per failure; with thousands of (known)
+    failures in a 600k-line file that dominates the run, so the lines are fetched in one pass here."""
+    if out.errors:
+        raise vlib.Inconclusive("harness errors: %s" % out.errors[:3])
+    need = set(i for i, _, _ in out.failures) | set(i for i, _ in out.crashes) | set(out.timeouts)
+    lines = {}
+    if need:
+        with open(scen) as f:
+            for i, line in enumerate(f):
+                if i in need:
+                    lines[i] = json.loads(line)
+    for idx, sig, detail in sorted(out.failures):
+        v.violation(sig, dict(engine=ENGINE, scenario=lines[idx], detail=detail))
+    for idx, text in sorted(out.crashes):
+        sc = lines[idx]
+        v.violation("wire/%s/crash/%s" % (sc[0], sc[1]),
+                    dict(engine=ENGINE, scenario=sc, detail={"crashed": True, "stderr": text[-1500:]}))
+    for idx in sorted(out.timeouts):
+        sc = lines[idx]
+        v.violation("wire/%s/timeout/%s" % (sc[0], sc[1]), dict(engine=ENGINE, scenario=sc, detail={"timeout": True}))
 
 
 def run(tier, seed):
@@ -146,7 +170,7 @@ def run(tier, seed):
     scen, results = generate(tier, seed)
     corrupt_for_demo(scen)
     out = vlib.replay(ENGINE, scen, timeout=120)
-    vlib.absorb_replay(v, out, ENGINE, scen, crash_sig=crash_sig)
+    absorb(v, out, scen)
     nontrivial = sum(c for k, c in out.classes.items() if k != "-")
     kinds = {}
     for k, c in out.classes.items():
